@@ -1227,7 +1227,7 @@ func c15Cases(car *c15Car, sh c15Shape, shapeIdx int, seed int64) []c15Case {
 			ctr++
 			return
 		}
-		if manyGroups && !thorough {
+		if manyGroups {
 			// every group costs the accumulator a 5000-element allocation: CARs with >500 blocks are there for
 			// the queue-capacity schedules, not for the whole matrix
 			keep := c.Skip == 0 && (len(c.Ignore) == 0 || (len(c.Ignore) == 2 && c.Ignore[0] == 1)) && (c.Consumer == "ahead1000" || c.Consumer == "ahead50" || c.Consumer == "lockstep" || c.Consumer == "sleep" || c.Consumer == "mixed" || (c.Consumer == "instant" && c.Chunk == "whole"))
